@@ -24,8 +24,8 @@ RULE = ("case = module in {LinSolve, Inverse, SystemOfEquations, StaticCondensat
         "values). Bulk numbers from default_rng(payload_seed). Non-trivial = n >= 4, matrix not diagonal, and for the "
         "partitioned modules non-empty free and prescribed/main sets. Distinct = sha1 of the canonical case JSON.")
 ASSUMPTIONS = [
-    "complex right-hand side with a real *sparse* matrix is documented as unsupported (LinSolve raises TypeError) and "
-    "is not generated",
+    "complex right-hand side with a real *sparse* matrix is documented as unsupported (LinSolve raises TypeError): "
+    "generated in part of the cases with the oracle 'TypeError(... not supported ...) or a correct solution'",
     "matrices are non-singular with bounded condition number by construction (<= ~1e3; the free block A_ff of the "
     "partitioned modules is checked: cases with cond(A_ff) > 1e6 are labelled inconclusive_cond and not judged)",
     "solver overrides are only combined with matrix classes the solver documents (Cholesky: Hermitian; LDL: Hermitian "
@@ -111,6 +111,7 @@ def strategy(tier):
         c["hint"] = draw(st.sampled_from([None, None, "hermitian", "symmetric"]))
         # documented LinSolve option dep_tol (accepted; must not change the solution)
         c["dep_tol"] = draw(st.sampled_from([None, None, 1e-12, 1e-9]))
+        c["try_refused"] = draw(st.sampled_from([False, False, True]))   # real sparse matrix with a complex right-hand side
         c["ascale"] = draw(st.sampled_from([1.0, 1.0, 1.0, 1e-9, 1e-12, 1e6]))    # overall scale of a non-FE matrix
         if module in ("SystemOfEquations", "StaticCondensation"):
             c["give"] = draw(st.sampled_from(["both", "free", "prescribed"]))
@@ -474,6 +475,13 @@ def check_case(case):
     spec = case["rhs"]
     rc = bool(spec["cplx"]) and not (sparse and not cplxA)       # documented exclusion
     rc2 = bool(spec["cplx2"]) and not (sparse and not cplxA)
+    # ... which is nevertheless tried in part of the cases: the admissible outcomes are the documented TypeError or
+    # a solution that satisfies the defining equations (never a returned x with A x != b)
+    try_refused = (bool(case.get("try_refused")) and sparse and not cplxA and bool(spec["cplx"])
+                   and module in ("LinSolve", "SystemOfEquations"))
+    if try_refused:
+        rc = True
+        labels.append("real_sparse_complex_rhs")
     if module in ("LinSolve", "SystemOfEquations"):
         labels.append(f"rhs_{spec['shape']}")
         labels.append("rhs_complex" if (rc or (rc2 and module == "SystemOfEquations")) else "rhs_real")
@@ -657,6 +665,9 @@ def check_case(case):
         return labels, V
     snaps = [_snap(s) for s in st1]
     exc, out1 = run(mod, sigs)
+    if try_refused and isinstance(exc, TypeError) and "not supported" in str(exc):
+        labels.append("documented_refusal")
+        return labels, V
     if exc is not None:
         b = bucket("raises") if dense_partitioned else f"C07:raises:{module}:{fmtc}:{type(exc).__name__}"
         V.append(viol(b, f"[stage 1] response() raises {exc_text(exc)} | {info}"))
